@@ -401,8 +401,8 @@ Qed.
 Theorem parse_partition o s items :
   parse o s = Parsed items ->
   exists ll gs,
-    length ll = length (splitlines (normalize_docstring s)) /\
-    Forall2 SameLineUpToHack ll (splitlines (normalize_docstring s)) /\
+    length ll = length (srclines (normalize_docstring s)) /\
+    Forall2 SameLineUpToHack ll (srclines (normalize_docstring s)) /\
     flatten_chunks gs = map snd ll /\
     Tiled 0 gs items.
 Proof.
@@ -496,7 +496,7 @@ Qed.
 Theorem parse_offsets o s items :
   AstInRange o -> parse o s = Parsed items ->
   exists (ll : list (label * str)) gs,
-    length ll = length (splitlines (normalize_docstring s)) /\
+    length ll = length (srclines (normalize_docstring s)) /\
     flatten_chunks gs = map snd ll /\
     LaidOut 0 gs items.
 Proof.
